@@ -40,6 +40,7 @@ type Info struct {
 	Offline     int // validator-periods spent silent
 	Density     string
 	MaxParents  int
+	Rotating    bool
 }
 
 // GenValidators draws 1..8 validators with one of the weight classes.
@@ -180,6 +181,8 @@ func GenDAG(t *rapid.T, epoch uint32, ids []idx.ValidatorID, weights []pos.Weigh
 	for v := range online {
 		online[v] = true
 	}
+	rotating := n >= 3 && rapid.IntRange(0, 2).Draw(t, "rotatingQuorums") == 0
+	info.Rotating = rotating
 	step := -1
 	var queue []int // creators scheduled for the current round
 	round := 0
@@ -196,6 +199,9 @@ func GenDAG(t *rapid.T, epoch uint32, ids []idx.ValidatorID, weights []pos.Weigh
 				}
 				if part {
 					info.Partitions++
+				}
+				for v := range activity {
+					activity[v] = rapid.SampledFrom([]int{4, 4, 4, 3, 2, 2, 1}).Draw(t, "activity")
 				}
 				for v := range seenLate {
 					seenLate[v] = rapid.SampledFrom([]int{0, 0, 0, 0, 1, 3, 6}).Draw(t, "seenLate")
@@ -217,6 +223,18 @@ func GenDAG(t *rapid.T, epoch uint32, ids []idx.ValidatorID, weights []pos.Weigh
 				}
 			}
 			round++
+			if rotating {
+				// the set of active validators changes every round: quorums keep shifting, so a validator's root is
+				// often seen by only a part of the next frame's roots (split votes, late decisions)
+				anyOn := false
+				for v := range online {
+					online[v] = rapid.IntRange(0, 2).Draw(t, "rotOnline") != 0
+					anyOn = anyOn || online[v]
+				}
+				if !anyOn {
+					online[rapid.IntRange(0, n-1).Draw(t, "rotForce")] = true
+				}
+			}
 			// one round: the online validators create events in a drawn order; slow ones skip rounds
 			perm := rapid.Permutation(seq(n)).Draw(t, "roundOrder")
 			for _, v := range perm {
